@@ -173,6 +173,12 @@ pub struct Cell {
     /// over how many distinct data channels they are spread (0 in an old replay = 1)
     #[serde(default)]
     pub sender_channels: u8,
+    /// Rtp / Srtp modes: 0 = audio, 1 = audio + video, 2 = audio + video + second audio (one m-line each)
+    #[serde(default)]
+    pub media_mix: u8,
+    /// Rtp / Srtp modes: `sdp_compatibility = LegacySip` (no a=mid, no BUNDLE, no rtcp-mux: RTCP on port + 1)
+    #[serde(default)]
+    pub legacy_sip: bool,
     /// the subject is the offerer
     pub subject_offerer: bool,
     /// data channels created by the offerer (WebRtc only)
@@ -412,34 +418,64 @@ fn gate_drops(g: u8, b0: u8) -> bool {
     }
 }
 
+/// One forwarded address pair. `face[i]` is the address side i must send to (it impersonates the other
+/// side), `real[i]` is where side i really listens.
+#[derive(Clone)]
+struct Lane {
+    face: [SocketAddr; 2],
+    real: [Arc<Mutex<Option<SocketAddr>>>; 2],
+}
+
 struct Proxy {
     /// gate[0]: packets sent by side 0 (offerer), gate[1]: packets sent by side 1
     gate: [Arc<AtomicU8>; 2],
-    real: [Arc<Mutex<Option<SocketAddr>>>; 2],
-    /// face[i]: the address side i must send to (it impersonates the other side)
-    face: [SocketAddr; 2],
     forwarded: [Arc<AtomicU64>; 2],
     dropped: [Arc<AtomicU64>; 2],
-    tasks: Vec<JoinHandle<()>>,
+    /// lanes 2k / 2k+1: RTP (or everything, when muxed) / RTCP of media section k; the face ports of the
+    /// two are consecutive so that "RTCP = RTP port + 1" also holds through the proxy
+    lanes: Mutex<Vec<Lane>>,
+    tasks: Mutex<Vec<JoinHandle<()>>>,
+}
+
+async fn bind_consecutive() -> anyhow::Result<(Arc<UdpSocket>, Arc<UdpSocket>)> {
+    for _ in 0..200 {
+        let a = UdpSocket::bind("127.0.0.1:0").await?;
+        let p = a.local_addr()?.port();
+        if p == u16::MAX || p % 2 == 1 {
+            continue;
+        }
+        if let Ok(b) = UdpSocket::bind(("127.0.0.1", p + 1)).await {
+            return Ok((Arc::new(a), Arc::new(b)));
+        }
+    }
+    anyhow::bail!("no consecutive port pair found")
 }
 
 impl Proxy {
     async fn new() -> anyhow::Result<Proxy> {
-        let s0 = Arc::new(UdpSocket::bind("127.0.0.1:0").await?);
-        let s1 = Arc::new(UdpSocket::bind("127.0.0.1:0").await?);
-        let face = [s0.local_addr()?, s1.local_addr()?];
-        let gate = [Arc::new(AtomicU8::new(0)), Arc::new(AtomicU8::new(0))];
-        let real = [Arc::new(Mutex::new(None)), Arc::new(Mutex::new(None))];
-        let forwarded = [Arc::new(AtomicU64::new(0)), Arc::new(AtomicU64::new(0))];
-        let dropped = [Arc::new(AtomicU64::new(0)), Arc::new(AtomicU64::new(0))];
-        let mut tasks = Vec::new();
+        let p = Proxy {
+            gate: [Arc::new(AtomicU8::new(0)), Arc::new(AtomicU8::new(0))],
+            forwarded: [Arc::new(AtomicU64::new(0)), Arc::new(AtomicU64::new(0))],
+            dropped: [Arc::new(AtomicU64::new(0)), Arc::new(AtomicU64::new(0))],
+            lanes: Mutex::new(Vec::new()),
+            tasks: Mutex::new(Vec::new()),
+        };
+        p.ensure_section(0).await?;
+        Ok(p)
+    }
+
+    fn spawn_lane(&self, s0: Arc<UdpSocket>, s1: Arc<UdpSocket>) -> anyhow::Result<Lane> {
+        let lane = Lane {
+            face: [s0.local_addr()?, s1.local_addr()?],
+            real: [Arc::new(Mutex::new(None)), Arc::new(Mutex::new(None))],
+        };
         for from in 0..2usize {
             let (rx_sock, tx_sock) = if from == 0 { (s0.clone(), s1.clone()) } else { (s1.clone(), s0.clone()) };
-            let g = gate[from].clone();
-            let dst = real[1 - from].clone();
-            let fw = forwarded[from].clone();
-            let dr = dropped[from].clone();
-            tasks.push(infra().spawn(async move {
+            let g = self.gate[from].clone();
+            let dst = lane.real[1 - from].clone();
+            let fw = self.forwarded[from].clone();
+            let dr = self.dropped[from].clone();
+            self.tasks.lock().push(infra().spawn(async move {
                 let mut buf = vec![0u8; 65536];
                 loop {
                     let Ok((n, _src)) = rx_sock.recv_from(&mut buf).await else { break };
@@ -460,8 +496,27 @@ impl Proxy {
                 }
             }));
         }
-        Ok(Proxy { gate, real, face, forwarded, dropped, tasks })
+        Ok(lane)
     }
+
+    /// make sure the RTP and RTCP lanes of media section `k` exist
+    async fn ensure_section(&self, k: usize) -> anyhow::Result<()> {
+        while self.lanes.lock().len() < 2 * (k + 1) {
+            let (a0, a1) = bind_consecutive().await?;
+            let (b0, b1) = bind_consecutive().await?;
+            let rtp = self.spawn_lane(a0, b0)?;
+            let rtcp = self.spawn_lane(a1, b1)?;
+            let mut l = self.lanes.lock();
+            l.push(rtp);
+            l.push(rtcp);
+        }
+        Ok(())
+    }
+
+    fn lane(&self, idx: usize) -> Lane {
+        self.lanes.lock()[idx].clone()
+    }
+
     fn set(&self, from: usize, g: Gate) {
         self.gate[from].store(g as u8, Ordering::SeqCst);
     }
@@ -469,11 +524,70 @@ impl Proxy {
         self.set(0, g);
         self.set(1, g);
     }
+
+    /// Rewrite the transport addresses of `desc`, made by side `from`, so that the other side talks to the
+    /// proxy, and tell the proxy where side `from` really listens. Returns the rewritten description and
+    /// every local address the description advertises (RTP, and RTCP when it is not muxed).
+    async fn rewrite(&self, desc: &SessionDescription, mode: Mode, from: usize) -> Result<(SessionDescription, Vec<SocketAddr>), String> {
+        if mode == Mode::WebRtc {
+            let lane = self.lane(0);
+            let (d, real) = rewrite_sdp(desc, mode, lane.face[1 - from])?;
+            *lane.real[from].lock() = Some(real);
+            return Ok((d, vec![real]));
+        }
+        let mut d = desc.clone();
+        let mut advertised = Vec::new();
+        let parse_conn = |c: &Option<String>| -> Option<IpAddr> { c.as_ref().and_then(|c| c.split_whitespace().nth(2)).and_then(|x| x.parse().ok()) };
+        let session_ip = parse_conn(&d.session.connection);
+        let n_sections = d.media_sections.len();
+        for k in 0..n_sections {
+            self.ensure_section(k).await.map_err(|e| format!("proxy lanes: {e}"))?;
+        }
+        for (k, sec) in d.media_sections.iter_mut().enumerate() {
+            if sec.port == 0 {
+                continue;
+            }
+            let ip = parse_conn(&sec.connection).or(session_ip).ok_or("media section without a c= line")?;
+            let (rtp, rtcp) = (self.lane(2 * k), self.lane(2 * k + 1));
+            let real_rtp = SocketAddr::new(ip, sec.port);
+            *rtp.real[from].lock() = Some(real_rtp);
+            advertised.push(real_rtp);
+            let mux = sec.attributes.iter().any(|a| a.key == "rtcp-mux");
+            let mut real_rtcp = SocketAddr::new(ip, sec.port.wrapping_add(1));
+            for a in sec.attributes.iter_mut() {
+                if a.key == "rtcp" {
+                    if let Some(v) = a.value.clone() {
+                        if let Some(p) = v.split_whitespace().next().and_then(|x| x.parse::<u16>().ok()) {
+                            real_rtcp = SocketAddr::new(ip, p);
+                            a.value = Some(format!("{} IN IP4 {}", rtcp.face[1 - from].port(), rtcp.face[1 - from].ip()));
+                        }
+                    }
+                }
+            }
+            *rtcp.real[from].lock() = Some(real_rtcp);
+            if !mux {
+                advertised.push(real_rtcp);
+            }
+            sec.port = rtp.face[1 - from].port();
+            if sec.connection.is_some() {
+                sec.connection = Some(format!("IN IP4 {}", rtp.face[1 - from].ip()));
+            }
+        }
+        if d.session.connection.is_some() {
+            d.session.connection = Some("IN IP4 127.0.0.1".to_string());
+        }
+        if advertised.is_empty() {
+            return Err(format!("no transport address in SDP:\n{}", desc.to_sdp_string()));
+        }
+        // make sure what we hand over is what the peer would parse from the wire
+        let d = SessionDescription::parse(d.sdp_type.clone(), &d.to_sdp_string()).map_err(|e| format!("rewritten SDP does not parse: {e:?}"))?;
+        Ok((d, advertised))
+    }
 }
 
 impl Drop for Proxy {
     fn drop(&mut self) {
-        for t in &self.tasks {
+        for t in self.tasks.lock().iter() {
             t.abort();
         }
     }
@@ -596,6 +710,7 @@ struct MediaKit {
     source: Arc<rustrtc::media::track::SampleStreamSource>,
     _sender: Arc<rustrtc::peer_connection::RtpSender>,
     feeder: Option<JoinHandle<()>>,
+    more: Vec<(Arc<rustrtc::media::track::SampleStreamSource>, Arc<rustrtc::peer_connection::RtpSender>)>,
 }
 
 struct Node {
@@ -611,6 +726,10 @@ struct Node {
     pump: Option<Pending>,
     wfc: Option<Pending>,
     blocked_sends: Vec<Pending>,
+    /// every local transport address a description of this endpoint advertised (RTP, non-muxed RTCP)
+    advertised: Vec<SocketAddr>,
+    /// a transport was attached before the event (sender / receiver loops run from then on)
+    transport_started: bool,
     media: Option<MediaKit>,
     transceivers: Vec<Arc<rustrtc::peer_connection::RtpTransceiver>>,
 }
@@ -624,8 +743,11 @@ impl Drop for Node {
     }
 }
 
-fn node_config(mode: Mode, ip: Ipv4Addr, blocked: bool, stun_blackhole: Option<SocketAddr>) -> RtcConfiguration {
+fn node_config(mode: Mode, ip: Ipv4Addr, blocked: bool, stun_blackhole: Option<SocketAddr>, legacy_sip: bool) -> RtcConfiguration {
     let mut c = RtcConfiguration::default();
+    if legacy_sip {
+        c.sdp_compatibility = rustrtc::config::SdpCompatibilityMode::LegacySip;
+    }
     c.transport_mode = mode.transport();
     c.bind_ip = Some(ip.to_string());
     c.disable_ipv6 = true;
@@ -646,6 +768,10 @@ fn node_config(mode: Mode, ip: Ipv4Addr, blocked: bool, stun_blackhole: Option<S
 
 impl Node {
     async fn new(side: usize, mode: Mode, blocked: bool, stun_blackhole: Option<SocketAddr>) -> Result<Node, String> {
+        Self::new_compat(side, mode, blocked, stun_blackhole, false).await
+    }
+
+    async fn new_compat(side: usize, mode: Mode, blocked: bool, stun_blackhole: Option<SocketAddr>, legacy_sip: bool) -> Result<Node, String> {
         let ip = unique_ip();
         // Srtp mode: a single worker sidesteps the (separately reported) race between
         // set_remote_description and the direct-mode transport loop
@@ -657,7 +783,7 @@ impl Node {
             .build()
             .map_err(|e| format!("runtime: {e}"))?;
         let h = rt.handle().clone();
-        let cfg = node_config(mode, ip, blocked, stun_blackhole);
+        let cfg = node_config(mode, ip, blocked, stun_blackhole, legacy_sip);
         let pc = match call(&h, Duration::from_secs(5), async move { PeerConnection::new(cfg) }).await {
             CallRes::Done(pc, _) => pc,
             CallRes::Hang => return Err("PeerConnection::new hangs".into()),
@@ -677,6 +803,8 @@ impl Node {
             pump: None,
             wfc: None,
             blocked_sends: Vec::new(),
+            advertised: Vec::new(),
+            transport_started: false,
             media: None,
             transceivers: Vec::new(),
         })
@@ -739,8 +867,38 @@ impl Node {
         let (source, track, _fb) = rustrtc::media::track::sample_track(rustrtc::media::frame::MediaKind::Audio, 64);
         let params = RtpCodecParameters { payload_type: 0, name: "PCMU".into(), clock_rate: 8000, channels: 1 };
         let sender = self.pc().add_track(track, params).map_err(|e| format!("add_track: {e}"))?;
-        self.media = Some(MediaKit { source: Arc::new(source), _sender: sender, feeder: None });
+        self.media = Some(MediaKit { source: Arc::new(source), _sender: sender, feeder: None, more: Vec::new() });
         Ok(())
+    }
+
+    fn note_advertised(&mut self, adv: Vec<SocketAddr>) {
+        for a in adv {
+            if !self.advertised.contains(&a) {
+                self.advertised.push(a);
+            }
+        }
+    }
+
+    /// further sending m-lines (kept alive next to the first audio sender)
+    fn add_extra_sender(&mut self, video: bool) -> Result<(), String> {
+        let kind = if video { rustrtc::media::frame::MediaKind::Video } else { rustrtc::media::frame::MediaKind::Audio };
+        let (source, track, _fb) = rustrtc::media::track::sample_track(kind, 64);
+        let params = if video {
+            RtpCodecParameters { payload_type: 96, name: "VP8".into(), clock_rate: 90000, channels: 0 }
+        } else {
+            RtpCodecParameters { payload_type: 8, name: "PCMA".into(), clock_rate: 8000, channels: 1 }
+        };
+        let sender = self.pc().add_track(track, params).map_err(|e| format!("add_track: {e}"))?;
+        match self.media.as_mut() {
+            Some(m) => m.more.push((Arc::new(source), sender)),
+            None => return Err("extra sender without a first one".into()),
+        }
+        Ok(())
+    }
+
+    fn add_receiver(&mut self, kind: MediaKind) {
+        let t = self.pc().add_transceiver(kind, TransceiverDirection::RecvOnly);
+        self.transceivers.push(t);
     }
 
     fn add_audio_receiver(&mut self) {
@@ -886,8 +1044,8 @@ impl PairRig {
     /// full offer/answer exchange through the proxy
     async fn exchange(&mut self, mode: Mode) -> Result<(), String> {
         let offer = make_offer(&self.o).await?;
-        let (offer_rw, real_o) = rewrite_sdp(&offer, mode, self.proxy.face[1])?;
-        *self.proxy.real[0].lock() = Some(real_o);
+        let (offer_rw, adv) = self.proxy.rewrite(&offer, mode, 0).await?;
+        self.o.note_advertised(adv);
         let answer = if mode == Mode::Srtp {
             // one task on the single-worker runtime: the direct-mode transport loop must not run between
             // set_remote_description(offer) and set_local_description(answer) (known start race, SIG_SRTP_RACE)
@@ -903,8 +1061,8 @@ impl PairRig {
             apply_offer(&self.n, offer_rw).await?;
             make_answer(&self.n).await?
         };
-        let (answer_rw, real_n) = rewrite_sdp(&answer, mode, self.proxy.face[0])?;
-        *self.proxy.real[1].lock() = Some(real_n);
+        let (answer_rw, adv) = self.proxy.rewrite(&answer, mode, 1).await?;
+        self.n.note_advertised(adv);
         apply_answer(&self.o, answer_rw).await?;
         Ok(())
     }
@@ -922,8 +1080,9 @@ async fn reach_phase(cell: &Cell, out: &mut Outcome) -> Result<PairRig, String> 
         hole_addr = Some(s.local_addr().map_err(|e| format!("{e}"))?);
         stun_hole = Some(s);
     }
-    let o = Node::new(0, mode, cell.blocked && subject == 0, hole_addr).await?;
-    let n = Node::new(1, mode, cell.blocked && subject == 1, None).await?;
+    let legacy = cell.legacy_sip && mode != Mode::WebRtc;
+    let o = Node::new_compat(0, mode, cell.blocked && subject == 0, hole_addr, legacy).await?;
+    let n = Node::new_compat(1, mode, cell.blocked && subject == 1, None, legacy).await?;
     let mut rig = PairRig { proxy, o, n, _stun_hole: stun_hole };
 
     // what the session carries
@@ -942,6 +1101,19 @@ async fn reach_phase(cell: &Cell, out: &mut Outcome) -> Result<PairRig, String> 
         // the offerer sends, the answerer receives
         rig.o.add_audio_sender()?;
         rig.n.add_audio_receiver();
+        if mode != Mode::WebRtc {
+            // one m-line per stream; with LegacySip they are not bundled: own RTP (+1: RTCP) port each
+            if cell.media_mix >= 1 {
+                rig.o.add_extra_sender(true)?;
+                rig.n.add_receiver(MediaKind::Video);
+            }
+            if cell.media_mix >= 2 {
+                rig.o.add_extra_sender(false)?;
+                rig.n.add_receiver(MediaKind::Audio);
+            }
+            out.labels.push(format!("media-mix:{}", cell.media_mix.min(2)));
+            out.labels.push(if cell.legacy_sip { "sdp:legacy-sip".into() } else { "sdp:standard".into() });
+        }
     }
     // pending calls issued before the event
     rig.o.start_pump();
@@ -964,9 +1136,10 @@ async fn reach_phase(cell: &Cell, out: &mut Outcome) -> Result<PairRig, String> 
         }
         Phase::OfferMade => {
             let offer = make_offer(&rig.o).await?;
+            let (offer_rw, adv) = rig.proxy.rewrite(&offer, mode, 0).await?;
+            rig.o.note_advertised(adv);
+            out.notes.push(format!("offer: {} m-line(s), ports {:?}", offer.media_sections.len(), offer.media_sections.iter().map(|m| m.port).collect::<Vec<_>>()));
             if s == 1 {
-                let (offer_rw, real_o) = rewrite_sdp(&offer, mode, rig.proxy.face[1])?;
-                *rig.proxy.real[0].lock() = Some(real_o);
                 apply_offer(&rig.n, offer_rw).await?;
             }
         }
@@ -1076,7 +1249,8 @@ async fn reach_phase(cell: &Cell, out: &mut Outcome) -> Result<PairRig, String> 
                 let t = rig.o.pc().add_transceiver(MediaKind::Video, TransceiverDirection::SendRecv);
                 rig.o.transceivers.push(t);
                 let offer = make_offer(&rig.o).await?;
-                let (offer_rw, _) = rewrite_sdp(&offer, mode, rig.proxy.face[1])?;
+                let (offer_rw, adv) = rig.proxy.rewrite(&offer, mode, 0).await?;
+                rig.o.note_advertised(adv);
                 if cell.fire_delay_ms % 2 == 0 {
                     apply_offer(&rig.n, offer_rw).await?;
                     out.labels.push("reneg:offer-applied".into());
@@ -1331,6 +1505,56 @@ async fn after_calls(cell: &Cell, node: &Node, out: &mut Outcome, terminal: bool
     }
 }
 
+fn rebind_failures(addrs: &[SocketAddr]) -> Vec<SocketAddr> {
+    addrs.iter().copied().filter(|a| std::net::UdpSocket::bind(a).is_err()).collect()
+}
+
+/// tasks of the harness itself that still run on the endpoint's runtime
+fn own_tasks(node: &Node) -> usize {
+    let pend = [&node.pump, &node.wfc].iter().filter(|p| p.as_ref().map(|p| !p.task.is_finished()).unwrap_or(false)).count();
+    let senders = node.blocked_sends.iter().filter(|p| !p.task.is_finished()).count();
+    let chans = node.chans.lock().iter().filter(|c| !c.task.is_finished()).count();
+    pend + senders + chans
+}
+
+/// After close(), while the application still HOLDS its handle (and its tracks / transceivers): every
+/// socket of the connection must be gone (no inet socket on the endpoint's address, every port a description
+/// advertised can be bound again) and no transport task may be left. What may legitimately stay is one idle
+/// loop per RtpReceiver / RtpSender object the application can still reach through the handle.
+async fn held_handle_release(cell: &Cell, node: &Node, out: &mut Outcome) {
+    let h = node.h.clone();
+    let ip = node.ip;
+    let adv = node.advertised.clone();
+    let Some(pc) = node.pc.clone() else { return };
+    // sender / receiver loops only start once a transport is attached: from ICE connected on, or (Rtp / Srtp
+    // answerer) as soon as the offer is applied
+    let objects = if cell.phase >= Phase::IceConnected || node.transport_started {
+        let trs = pc.get_transceivers();
+        trs.iter().map(|t| t.receiver().is_some() as usize + t.sender().is_some() as usize).sum::<usize>()
+    } else {
+        0
+    };
+    drop(pc);
+    let t = Instant::now();
+    let ok = wait_until(LOCAL_BOUND, || {
+        sockets_on(ip).is_empty() && rebind_failures(&adv).is_empty() && h.metrics().num_alive_tasks().saturating_sub(own_tasks(node)) <= objects
+    })
+    .await;
+    let tasks = h.metrics().num_alive_tasks().saturating_sub(own_tasks(node));
+    let socks = sockets_on(ip);
+    let busy = rebind_failures(&adv);
+    out.notes.push(format!("held: {} task(s) left ({} sender/receiver object(s)), sockets {:?}, advertised {} port(s), settled in {} ms", tasks, objects, socks, adv.len(), t.elapsed().as_millis()));
+    out.labels.push(format!("held-tasks:{}", tasks.min(9)));
+    if !ok {
+        if !socks.is_empty() || !busy.is_empty() {
+            out.fail(cell, "sockets-held-after-close", true, format!("2 s after close(), with the handle still held: sockets {socks:?}, advertised ports that cannot be bound again {busy:?}"));
+        }
+        if tasks > objects {
+            out.fail(cell, "tasks-held-after-close", true, format!("2 s after close(), with the handle still held, {tasks} task(s) of the connection are alive but only {objects} sender/receiver object(s) exist"));
+        }
+    }
+}
+
 /// drop everything the application holds of `node` and wait for its tasks and sockets to go away
 async fn release_node(cell: &Cell, mut node: Node, who: &str, out: &mut Outcome) {
     for p in [node.pump.take(), node.wfc.take()].into_iter().flatten().chain(std::mem::take(&mut node.blocked_sends)) {
@@ -1359,9 +1583,11 @@ async fn release_node(cell: &Cell, mut node: Node, who: &str, out: &mut Outcome)
     let h = node.h.clone();
     let ip = node.ip;
     let t = Instant::now();
-    let ok = wait_until(LOCAL_BOUND, || h.metrics().num_alive_tasks() == 0 && sockets_on(ip).is_empty()).await;
+    let adv = node.advertised.clone();
+    let ok = wait_until(LOCAL_BOUND, || h.metrics().num_alive_tasks() == 0 && sockets_on(ip).is_empty() && rebind_failures(&adv).is_empty()).await;
     let tasks = h.metrics().num_alive_tasks();
-    let socks = sockets_on(ip);
+    let mut socks = sockets_on(ip);
+    socks.extend(rebind_failures(&adv).into_iter().map(|a| format!("cannot rebind {a}")));
     out.notes.push(format!("{who} released in {} ms", t.elapsed().as_millis()));
     if !ok && std::env::var("C17_DIAG_RELEASE").is_ok() {
         let gone = wait_until(Duration::from_secs(40), || h.metrics().num_alive_tasks() == 0 && sockets_on(ip).is_empty()).await;
@@ -1455,6 +1681,7 @@ async fn finish_subject(cell: &Cell, mut node: Node, t0: Instant, bound: Duratio
         if !detectable {
             after_calls(cell, &node, out, true).await;
         }
+        held_handle_release(cell, &node, out).await;
     } else if !alive_after_drop {
         // all handles are gone: channel handles may outlive the connection, their recv() must still return
         check_channels(cell, &node, t0, out, true).await;
@@ -1511,6 +1738,10 @@ async fn run_pair_cell(cell: Cell) -> Outcome {
     let detectable = cell.mode == Mode::WebRtc || cell.any_local();
     let bound = if cell.any_local() { LOCAL_BOUND } else { silence_bound() };
 
+    {
+        let node = rig.node_mut(subject);
+        node.transport_started = node.state() == PeerConnectionState::Connected || ice_up(*node.ice.borrow());
+    }
     // ---- fire
     let t0 = Instant::now();
     if let Some(e2) = cell.second {
@@ -2220,13 +2451,17 @@ fn matrix(ctx: &Ctx) -> Vec<Cell> {
     let mut coords = matrix_coords();
     if !thorough {
         // one pass in WebRtc mode, a diagonal in the other modes
-        let mut k = 0usize;
-        coords.retain(|(_, _, m, _)| {
-            if *m == Mode::WebRtc {
-                true
-            } else {
-                k += 1;
-                (k + ctx.seed as usize) % 2 == 0
+        // (the Srtp and Rtp halves complement each other: every (phase, event) runs in one of the two)
+        let mut k = [0usize; 3];
+        coords.retain(|(_, _, m, _)| match m {
+            Mode::WebRtc => true,
+            Mode::Srtp => {
+                k[1] += 1;
+                (k[1] + ctx.seed as usize) % 2 == 0
+            }
+            Mode::Rtp => {
+                k[2] += 1;
+                (k[2] + ctx.seed as usize) % 2 == 1
             }
         });
     }
@@ -2235,6 +2470,8 @@ fn matrix(ctx: &Ctx) -> Vec<Cell> {
     let trees = ctx.draw("matrix", n, &knobs());
     // parked senders: 1-4 tasks over 1-3 channels (own stream, so the other knobs keep their values)
     let sender_trees = ctx.draw("matrix-senders", n, &(1u8..=4, 1u8..=3));
+    // Rtp / Srtp: media mix x SDP compatibility (own stream)
+    let media_trees = ctx.draw("matrix-media", n, &(0u8..3, any::<bool>()));
     let mut out = Vec::new();
     for r in 0..reps {
         for (i, (p, e, m, blocked)) in coords.iter().enumerate() {
@@ -2268,6 +2505,21 @@ fn matrix(ctx: &Ctx) -> Vec<Cell> {
                 sender_channels = sender_channels.min(senders);
                 ch = ch.max(sender_channels);
             }
+            let (mut media_mix, mut legacy_sip) = (0u8, false);
+            if *m != Mode::WebRtc {
+                let (mx, ls) = media_trees[r * coords.len() + i].current();
+                media_mix = mx;
+                legacy_sip = ls;
+                if r == 0 && matches!(*p, Phase::Created | Phase::OfferMade) {
+                    // boundary shape present in every run: several unbundled m-lines (own RTP and RTCP
+                    // sockets and runner each) before any answer exists, seen from the side that made them
+                    media_mix = media_mix.max(1);
+                    legacy_sip = true;
+                    if *p == Phase::OfferMade && std::env::var("C17_SUBJECT").is_err() {
+                        subject_offerer = true;
+                    }
+                }
+            }
             out.push(Cell {
                 phase: *p,
                 event: *e,
@@ -2276,6 +2528,8 @@ fn matrix(ctx: &Ctx) -> Vec<Cell> {
                 blocked: *blocked,
                 senders,
                 sender_channels,
+                media_mix,
+                legacy_sip,
                 subject_offerer,
                 channels: if *m == Mode::WebRtc { ch } else { 0 },
                 negotiated: neg && !e.needs_low_peer(),
@@ -2327,6 +2581,8 @@ fn race_strategy() -> impl Strategy<Value = Cell> {
             blocked: false,
             senders: 0,
             sender_channels: 0,
+            media_mix: if mode == Mode::WebRtc { 0 } else { stall % 3 },
+            legacy_sip: mode != Mode::WebRtc && delay % 2 == 1,
             subject_offerer: so || low,
             channels: if mode == Mode::WebRtc { ch } else { 0 },
             negotiated: neg && !low,
